@@ -661,3 +661,64 @@ Proof.
   split; [exact (proj1 ex_host_RT)|]. split; [exact (proj2 ex_host_RT)|].
   split; [vm_compute; reflexivity|]. split; [vm_compute; reflexivity|]. eexists. split; vm_compute; reflexivity.
 Qed.
+
+(* 17. how the state-level agreement of section 15 composes into agreement with Parser::parse_url, for URLs
+   with an authority: if on the text T behind "scheme://" the userinfo, host-and-port, path-start and
+   query-and-fragment states each write the canonical text of their component (ui, h, pt, p, q, f of C02's
+   auth_url) and hand the rest on, then after "//" the parser returns the canonical record
+   auth_url hd sch ui h pt p q f - whatever the RAW text of each component was; and parse_url on
+   scheme "://" T is that run (non-special scheme; special non-file scheme when T does not start with a slash).
+   Each premise is discharged either by C02's state identities (a component left alone: its text is canonical)
+   or by C06_parser_agreement_* / Proofs/C06_Agree.v (the component a setter wrote: raw argument text).
+   NOT proved: that each setter maps the canonical record to the canonical record with the new component
+   (it would make the conclusion read "parse_url (splice) = POk u'"; checked on concrete inputs in
+   C06_parser_agreement_inhabited). *)
+From RU Require Import Proofs.C02_Parts Proofs.C02_Auth Proofs.C06_AgreeUrl.
+Theorem C06_parser_agreement_compose : forall dbg hp hpo hd ovr st sch ui h pt p q f T R1 R2 R3 hh,
+  let A := (sch ++ [58]) ++ [47; 47] in
+  nlen (auth_front hd sch ui h pt) <= U32_MAX_P ->
+  (hi_of_host h = HI_None -> ui = UNone) ->
+  parse_userinfo st A T = POk (A ++ ui_text ui, nlen A + ui_ulen ui, R1) ->
+  parse_host_and_port hp hpo hd CUrlParser st (nlen sch) (A ++ ui_text ui) R1
+    = POk (auth_front hd sch ui h pt, nlen (A ++ ui_text ui) + nlen (hd h), hi_of_host h, pt, R2) ->
+  parse_path_start dbg CUrlParser st true (auth_front hd sch ui h pt) R2 = POk (auth_pre hd sch ui h pt p, hh, R3) ->
+  parse_query_and_fragment ovr CUrlParser st (nlen sch) (auth_pre hd sch ui h pt p) R3
+    = POk (auth_ser hd sch ui h pt p q f, qf_qs (nlen (auth_pre hd sch ui h pt p)) q, qf_fs (nlen (auth_pre hd sch ui h pt p)) q f) ->
+  after_double_slash dbg hp hpo hd ovr CUrlParser st (nlen sch) (sch ++ [58]) T = POk (auth_url hd sch ui h pt p q f).
+Proof. exact ads_compose. Qed.
+Print Assumptions C06_parser_agreement_compose.
+
+Theorem C06_parser_agreement_compose_url : forall dbg hp hpo hd ovr sch T,
+  scheme_canon sch = true -> nlen sch <= U32_MAX_P -> edge_ok (sch ++ 58 :: 47 :: 47 :: T) ->
+  (scheme_type_of sch = STNotSpecial ->
+     parse_url dbg hp hpo hd ovr None (sch ++ 58 :: 47 :: 47 :: T)
+     = after_double_slash dbg hp hpo hd ovr CUrlParser STNotSpecial (nlen sch) (sch ++ [58]) T)
+  /\ (scheme_type_of sch = STSpecialNotFile ->
+      match T with c :: _ => is_tnl c = false /\ is_slash_or_bslash c = false | [] => False end ->
+      parse_url dbg hp hpo hd ovr None (sch ++ 58 :: 47 :: 47 :: T)
+      = after_double_slash dbg hp hpo hd ovr CUrlParser STSpecialNotFile (nlen sch) (sch ++ [58]) T).
+Proof.
+  intros dbg hp hpo hd ovr sch T K Hb He. split.
+  - intros Hs. exact (parse_url_ads_nonspecial dbg hp hpo hd ovr sch T K Hs Hb He).
+  - intros Hs HT. exact (parse_url_ads_special dbg hp hpo hd ovr sch T K Hs Hb He HT).
+Qed.
+Print Assumptions C06_parser_agreement_compose_url.
+
+(* the premises are met by a non-canonical text: "a://" ++ "u s@h:80/p?q#f" (raw username "u s"), and the
+   conclusion: parse_url returns the canonical record whose serialization is "a://u%20s@h:80/p?q#f" *)
+Example C06_parser_agreement_compose_inhabited :
+  let sch := B "a" in let ui := UUser (B "u%20s") in let h := HDomain (B "h") in let pt := Some 80 in
+  let p : pth := Some ([], B "p") in let q := Some (B "q") in let f := Some (B "f") in
+  let A := (sch ++ [58]) ++ [47; 47] in
+  parse_userinfo STNotSpecial A (B "u s@h:80/p?q#f") = POk (A ++ ui_text ui, nlen A + ui_ulen ui, B "h:80/p?q#f")
+  /\ parse_host_and_port ex_hp ex_hp ex_hd CUrlParser STNotSpecial (nlen sch) (A ++ ui_text ui) (B "h:80/p?q#f")
+     = POk (auth_front ex_hd sch ui h pt, nlen (A ++ ui_text ui) + nlen (ex_hd h), hi_of_host h, pt, B "/p?q#f")
+  /\ parse_path_start true CUrlParser STNotSpecial true (auth_front ex_hd sch ui h pt) (B "/p?q#f")
+     = POk (auth_pre ex_hd sch ui h pt p, true, B "?q#f")
+  /\ parse_query_and_fragment None CUrlParser STNotSpecial (nlen sch) (auth_pre ex_hd sch ui h pt p) (B "?q#f")
+     = POk (auth_ser ex_hd sch ui h pt p q f, qf_qs (nlen (auth_pre ex_hd sch ui h pt p)) q,
+            qf_fs (nlen (auth_pre ex_hd sch ui h pt p)) q f)
+  /\ edge_ok (sch ++ 58 :: 47 :: 47 :: B "u s@h:80/p?q#f")
+  /\ parse_url true ex_hp ex_hp ex_hd None None (B "a://u s@h:80/p?q#f") = POk (auth_url ex_hd sch ui h pt p q f)
+  /\ ser (auth_url ex_hd sch ui h pt p q f) = B "a://u%20s@h:80/p?q#f".
+Proof. exact compose_inhabited. Qed.
